@@ -1027,6 +1027,8 @@ def find_earlier_page_break(context, children, absolute_boxes, fixed_boxes):
                 if result:
                     new_grand_children, resume_at = result
                     new_child = child.copy_with_children(new_grand_children)
+                    # The box is now fragmented: it loses its bottom decoration
+                    new_child.remove_decoration(start=False, end=True)
                     new_children = [*children[:index], new_child]
 
                     # Re-add footer at the end of split table
